@@ -44,9 +44,16 @@ def _apply(model, op, k, s, depth_ops):
         if old != model:
             return None
         model = {q: state for q in model}
-    elif op == 2:                                 # unknown kind refused, profile unchanged
+    elif op == 2:                                 # unknown kind refused, profile unchanged -- alone, after a valid
+        variant = (k + s) % 3                       # entry of the same call, or in a scoped override
         try:
-            E.seterr(nosuchkind=state)
+            if variant == 0:
+                E.seterr(nosuchkind=state)
+            elif variant == 1:
+                E.seterr(**{kind: state, 'nosuchkind': state})
+            else:
+                with E.errstate(**{kind: state, 'nosuchkind': state}):
+                    pass
             return None
         except KeyError:
             pass
